@@ -209,6 +209,8 @@ func (st *specState) posts(n *Node, dest reflect.Value, path string, wrapIssue b
 		if n.PostErr == -(i + 1) {
 			if wrapIssue {
 				st.add(path, "", n.DType())
+			} else if n.PostNoPath {
+				st.add("", "post_issue", "") // reported as it is: no path, keyed $root
 			} else {
 				st.add("custom.path", "post_issue", "")
 			}
@@ -235,7 +237,11 @@ func (st *specState) runTests(n *Node, dest reflect.Value, path string) (caught 
 				dest.Set(reflect.ValueOf(primValue(n.Kind, VCatch)))
 				return true
 			}
-			st.add(path, t.Code, n.DType())
+			if t.Path != "" {
+				st.add(t.Path, t.Code, n.DType()) // IssuePath: the issue of this test is filed elsewhere
+			} else {
+				st.add(path, t.Code, n.DType())
+			}
 		}
 	}
 	return false
